@@ -221,6 +221,9 @@ class Interp:
             c = VTuple([self.clone_value(x, memo) for x in v.items], v._t)
         elif isinstance(v, VOptObj):
             c = VOptObj(v.present, self.clone_value(v.obj, memo))
+        elif _is_j(v):
+            from . import jsontree
+            return jsontree.clone(self, v, memo)
         else:
             c = v  # immutable wrappers
         memo[id(v)] = c
@@ -279,6 +282,11 @@ class Interp:
             return z3.BoolVal(len(v.items) > 0)
         if isinstance(v, VDictRec):
             return z3.BoolVal(len(v.fields) > 0)
+        if _is_j(v):
+            from . import jsontree
+            return jsontree.truth(self, v)
+        if isinstance(v, (VEmptyList, VEmptySet)):
+            return z3.BoolVal(False)
         if isinstance(v, VOptObj):
             return z3.And(v.present, self.truth(v.obj))
         if isinstance(v, VObj):
@@ -313,6 +321,9 @@ class Interp:
             return self.undef_bool()
         if a is b and not isinstance(a, (VReal,)):
             return z3.BoolVal(True)
+        if _is_j(a) or _is_j(b):
+            from . import jsontree
+            return jsontree.eq(self, a, b)
         if isinstance(a, VNone) or isinstance(b, VNone):
             if isinstance(a, VNone) and isinstance(b, VNone):
                 return z3.BoolVal(True)
@@ -393,6 +404,9 @@ class Interp:
             return x < y if strict else x <= y
         if isinstance(a, VStr) and isinstance(b, VStr):
             return (a.e < b.e) if strict else (a.e <= b.e)
+        if type(a).__name__ == "VWStr" and type(b).__name__ == "VWStr":
+            from . import jsontree
+            return jsontree.w_lt(self, a, b, strict)
         if isinstance(a, VTuple) and isinstance(b, VTuple):
             return self._lex(a.items, b.items, strict)
         if isinstance(a, VUn) and isinstance(b, VUn) and a.t == b.t:
@@ -675,6 +689,8 @@ class Interp:
     def is_(self, a, b):
         if isinstance(a, VNone) or isinstance(b, VNone):
             return self.eq(a, b)
+        if _is_j(a) or _is_j(b):
+            return z3.BoolVal(a is b)
         if isinstance(a, (VObj, VFunc, VClass, VDictRec, VSeq, VMap, VSet, VOpaque)) or \
                 isinstance(b, (VObj, VFunc, VClass, VDictRec, VSeq, VMap, VSet, VOpaque)):
             return z3.BoolVal(a is b)
@@ -1182,6 +1198,8 @@ class Interp:
             return VSeq(z3.K(z3.IntSort(), self.default_of(lt.elem)), z3.IntVal(0), lt.elem, lt.kind)
         if isinstance(v, VDictRec) and not v.fields and isinstance(lt, TMap):
             return self.empty_map(lt)
+        if lt.name in ("JObj", "JList"):
+            return self.coerce_value(v, lt)
         if isinstance(v, VEmptySet) and isinstance(lt, TSet):
             return self.empty_set(lt)
         if isinstance(lt, (TOpt,)) or lt is TReal:
@@ -1264,6 +1282,12 @@ class Interp:
             return self.empty_set(t)
         if isinstance(v, VDictRec) and not v.fields and isinstance(t, TMap):
             return self.empty_map(t)
+        if isinstance(v, VDictRec) and not v.fields and t.name == "JObj":
+            from . import jsontree
+            return jsontree.VJDict()
+        if isinstance(v, VEmptyList) and t.name == "JList":
+            from . import jsontree
+            return jsontree.VJList()
         if isinstance(t, TOpt) and not isinstance(v, VOpt):
             try:
                 return t.wrap(unwrap(v, t))
@@ -1644,6 +1668,11 @@ class Interp:
 
 
 _MISSING = object()
+
+
+def _is_j(v):
+    """python-side JSON model values (pyvc/jsontree.py)"""
+    return type(v).__name__ in ("VJDict", "VJSet", "VJList", "VWStr")
 
 
 class SpecUndef(Exception):
